@@ -15,7 +15,7 @@ import (
 // params: hist (history leaving things pending), ctl (control program),
 // cons (consumer configuration), cap (Events capacity, -1 = NewWatcher).
 
-var CtlHists = []string{"idle", "mixed3", "burst6", "mvrm", "mvrmdir", "rmadd", "readerr", "shortread", "eof", "overflow", "movein", "fresh"}
+var CtlHists = []string{"idle", "mixed3", "burst6", "mvrm", "mvrmdir", "rmadd", "readerr", "shortread", "eof", "overflow", "movein", "fresh", "unmount"}
 var CtlCtls = []string{"close", "add-close", "remove-close", "list-close", "close||close", "close||add", "close||remove", "close||list", "add||remove", "list"}
 var CtlCons = []string{"none", "events", "errors", "both", "both-stop1", "both-stop2"}
 
@@ -67,7 +67,7 @@ func ctlScenario(p map[string]any) *Scenario {
 		}
 		w, err := x.NewWatcher(capa)
 		mustNil(err)
-		if hist == "overflow" {
+		if hist == "overflow" || hist == "unmount" {
 			x.SubstitutePipe(w)
 		}
 		if hist != "fresh" { // "fresh": nothing was ever added, the control program's Add (if any) is the Watcher's first
@@ -116,6 +116,9 @@ func ctlScenario(p map[string]any) *Scenario {
 		case "overflow":
 			// wd 2 is w/d (second Add); the overflow marker sits between two genuine records
 			x.Inject(w, Rec{Wd: 2, Mask: 0x100, Name: "n1"}, Rec{Wd: -1, Mask: 0x4000}, Rec{Wd: 2, Mask: 0x100, Name: "n2"})
+		case "unmount":
+			// the filesystem under w/d (wd 2) is unmounted: IN_UNMOUNT, then IN_IGNORED, between two genuine records
+			x.Inject(w, Rec{Wd: 1, Mask: 0x4, Name: ""}, Rec{Wd: 2, Mask: 0x2000}, Rec{Wd: 2, Mask: 0x8000}, Rec{Wd: 1, Mask: 0x2, Name: ""})
 		default:
 			panic("unknown hist " + hist)
 		}
